@@ -659,6 +659,7 @@ impl ParserListener for Screen {
             })
             .collect::<String>();
 
+        let default = self.default_char();
         for char in data.chars() {
             let char_width = char.width().unwrap_or(0);
 
@@ -704,18 +705,22 @@ impl ParserListener for Screen {
                     );
                 }
             } else if char_width == 0 && is_combining_mark(char) {
+                // A never-written cell is a blank default cell: the mark
+                // combines with it exactly as with a materialised blank.
                 if self.cursor.x > 0 {
-                    if let Some(last) = line.get_mut(&(self.cursor.x - 1)) {
-                        last.data = last.data.nfc().collect::<String>() + &char.to_string();
-                    }
+                    let last = line
+                        .entry(self.cursor.x - 1)
+                        .or_insert_with(|| default.clone());
+                    last.data = last.data.nfc().collect::<String>() + &char.to_string();
                 } else if self.cursor.y > 0 {
-                    if let Some(last) = self
+                    let last = self
                         .buffer
-                        .get_mut(&(self.cursor.y - 1))
-                        .and_then(|l| l.get_mut(&(self.columns - 1)))
-                    {
-                        last.data = last.data.nfc().collect::<String>() + &char.to_string();
-                    }
+                        .entry(self.cursor.y - 1)
+                        .or_insert_with(HashMap::new)
+                        .entry(self.columns - 1)
+                        .or_insert_with(|| default.clone());
+                    last.data = last.data.nfc().collect::<String>() + &char.to_string();
+                    self.dirty.insert(self.cursor.y - 1);
                 }
             } else {
                 break; // Unprintable character or doesn't advance the cursor.
